@@ -67,7 +67,7 @@ def main():
                     lines = [l for l in c.stdout.splitlines() if l.startswith(("VIOLATION", "UNDECIDED", "CHECKER-FAULT"))]
                     det = f"exit={c.returncode}; " + (lines[0][:200] if lines else "no alarm")
                     meta["check_exit"] = c.returncode
-                    meta["check_lines"] = [l[:240] for l in lines[:5]]
+                    meta["check_lines"] = [l[:240] for l in sorted(lines, key=lambda l: not l.startswith("VIOLATION"))[:5]]      # VIOLATION lines first
                     meta["n_alarm_lines"] = len(lines)
                 finally:
                     sh(f"git -C {REPO} checkout -- .")
